@@ -5,7 +5,7 @@
    consumers: lisp_lex / lisp_read_string (Emacs Lisp), csv_read_rfc (RFC 4180), csv_read_bs
    (backslash escapes), xml_decode (XML character data).  All statements hold for ALL byte strings
    (no printability or length restriction) unless a hypothesis says otherwise. *)
-From LedgerV Require Import Base.Prelude Gen.CsvFormat Model.Escape Proofs.EscapeProofs Proofs.EscapeXmlProofs.
+From LedgerV Require Import Base.Prelude Gen.CsvFormat Gen.PayeeRule Model.Escape Proofs.EscapeProofs Proofs.EscapeXmlProofs.
 Local Open Scope Z_scope.
 
 (* ---- emacs ---- *)
@@ -89,39 +89,37 @@ Proof. exact xml_commodities_structure. Qed.
 Print Assumptions xml_commodities_well_formed.
 
 (* ---- payee overrides (Payee tags) ---- *)
-(* the csv payee cell is post_t::payee() by csv_default_row_fields below.  The xml output lets a
-   reader recover the posting <payee> child if present, else the transaction <payee>: that is the
-   register payee whenever the posting has no tags on later lines, or no payee was fixed when
-   its line was read *)
-Theorem xml_payee_faithful_partial : forall x p,
-  p_meta_later p = [] \/ payee_at_parse x p = [] -> xml_payee x p = post_payee x p.
-Proof.
-  intros x p [H|H]; [apply xml_payee_no_later_tags|apply xml_payee_no_parse_time_payee]; exact H.
-Qed.
-Print Assumptions xml_payee_faithful_partial.
+(* The csv payee cell is post_t::payee() by csv_default_row_fields below.  The xml output lets a
+   reader recover the posting <payee> child if present, else the transaction <payee>.  Whether that
+   is the register payee depends on how textual.cc stores the payee; Gen/PayeeRule.v
+   (src_payee_rule) is regenerated from the source on every run and selects the statement:
+     PayeeFollowsLaterTags   (a note line after the posting that changes the Payee tag updates the
+                              stored payee): xml and register agree for every posting whose
+                              later-line Payee tags carry a value;
+     PayeeFixedAtPostingLine (payee stored once, when the posting line is read): they agree when
+                              the posting has no later-line tags or no payee was stored, and
+                              DISAGREE on a witness (finding F116);
+     unrecognised source shape: no statement is accepted (False). *)
+Theorem payee_rule_recognised : src_payee_rule <> PayeeRuleUnrecognised.
+Proof. discriminate. Qed.
+Print Assumptions payee_rule_recognised.
 
-(* witness transaction: header payee H, transaction tag Payee: X, one posting whose NEXT line says
-   Payee: Y *)
-Definition pw_entry (v : str) : mentry := (true, k_Payee, Some v).
-Definition pw_post : post :=
-  mkPost 3 0 0 [65] (mkAmt [36; 49] [80] (Some [36]) [49]) None None [] [pw_entry [89]].
-Definition pw_xact : xact := mkXact 1 2020 1 2 0 None [72] None [pw_entry [88]] [pw_post].
-
-(* FALSE in general (finding F116): textual.cc stores the payee when the posting LINE is read (the
-   inherited X), a Payee tag on the following line changes payee_from_tag() (Y, what xml shows) but
-   not post_t::payee() (X, what register and csv show) *)
-Theorem xml_payee_refuted : exists x p, In p (x_posts x) /\ xml_payee x p <> post_payee x p.
-Proof. exists pw_xact, pw_post. split; [left; reflexivity|]. vm_compute. discriminate. Qed.
-Print Assumptions xml_payee_refuted.
+Theorem xml_payee_faithful : xml_payee_statement src_payee_rule.
+Proof. apply xml_payee_statement_holds. exact payee_rule_recognised. Qed.
+Print Assumptions xml_payee_faithful.
+(* the statement selected on this run *)
+Eval cbv [xml_payee_statement src_payee_rule] in xml_payee_statement src_payee_rule.
 
 (* emacs prints one payee per transaction, the header's (emacs_tokens_faithful): it is the
-   register payee of a posting only when no Payee tag applies ... *)
+   register payee of a posting when no tag is present at all ... *)
 Theorem emacs_payee_faithful_partial : forall x p,
-  payee_at_parse x p = [] -> payee_from_tag x p = [] -> post_payee x p = x_payee x.
-Proof. exact header_payee_without_tags. Qed.
+  x_meta x = [] -> p_meta_inline p = [] -> p_meta_later p = [] -> post_payee x p = x_payee x.
+Proof.
+  intros x p H1 H2 H3. apply header_payee_without_tags; try assumption. exact payee_rule_recognised.
+Qed.
 Print Assumptions emacs_payee_faithful_partial.
 
-(* ... and not otherwise (finding F115) *)
+(* ... and not in general (finding F115): a transaction-level Payee tag overrides the header *)
 Theorem emacs_payee_refuted : exists x p, In p (x_posts x) /\ post_payee x p <> x_payee x.
 Proof. exists pw_xact, pw_post. split; [left; reflexivity|]. vm_compute. discriminate. Qed.
 Print Assumptions emacs_payee_refuted.
